@@ -171,7 +171,9 @@ Lemma next_element_S f pj o :
             Ok ({| c_len := c_len o; c_off := off3 + esize |},
                 Some (name, {| i_len := off3 + esize; i_off := off3; i_add := add; i_cur := cur; i_t := t2 |}, TagToType_ref t2))
       else if (t =? TagObjectEnd)%N then Ok (o, None)
-      else if (t =? TagNop)%N then next_element f pj {| c_len := c_len o; c_off := c_off o + Z.of_N (word_val v) |}
+      else if (t =? TagNop)%N then
+        if (word_val v =? 0)%N then Err
+        else next_element f pj {| c_len := c_len o; c_off := c_off o + Z.of_N (word_val v) |}
       else Err.
 Proof. reflexivity. Qed.
 
@@ -202,6 +204,7 @@ Proof.
       cbn [app] in Htape. rewrite <- app_assoc in Htape.
       rewrite (rd_app pj (c_len o) (c_off o) pre w _ Htape Hoff) by lia.
       cbn [obind]. cbv zeta. rewrite Ht. tageq.
+      replace (word_val w =? 0) with false by (rewrite Hv; lia).
       rewrite E. cbn [c_len c_off]. f_equal. f_equal. rewrite Hv. lens.
 Qed.
 
